@@ -145,6 +145,35 @@ func (whereeval whereevalT) Close() {
 	whereeval.c.luapool.Put(whereeval.luaState)
 }
 
+// detach gives the filter an interpreter of its own. A hook, a channel or a
+// live fence evaluates its filter for as long as it lives, long after the
+// pooled interpreter it was parsed with has been handed back and is being used
+// by scripts, possibly at the same time.
+func (whereeval whereevalT) detach() whereevalT {
+	ls := whereeval.c.luapool.New()
+	return whereevalT{
+		c:        whereeval.c,
+		luaState: ls,
+		fn: &lua.LFunction{
+			IsG: false,
+			Env: ls.Env,
+
+			Proto:     whereeval.fn.Proto,
+			GFunction: nil,
+			Upvalues:  make([]*lua.Upvalue, 0),
+		},
+		args: whereeval.args,
+	}
+}
+
+func detachWhereevals(whereevals []whereevalT) []whereevalT {
+	detached := make([]whereevalT, len(whereevals))
+	for i, whereeval := range whereevals {
+		detached[i] = whereeval.detach()
+	}
+	return detached
+}
+
 func luaSetField(tbl *lua.LTable, name string, val field.Value) {
 	var lval lua.LValue
 	switch val.Kind() {
